@@ -75,6 +75,10 @@ class MorphInterp(ResultInterp):
         if isinstance(base, Term):
             if attr == "flags":
                 return Sym("flags")
+            if attr == "size" and base.kind in ("at", "border"):
+                # the masks of the property are not empty: neither is their border (erosion with a zero
+                # border strictly shrinks a finite non-empty set) nor the distances read at the border
+                return Term("size>0", of=base)
             return _TM(base, attr)
         return super().get_attr(base, attr, node)
 
@@ -137,6 +141,8 @@ class MorphInterp(ResultInterp):
     def call_builtin(self, name, args, kwargs, node):
         if name == "float" and args and isinstance(args[0], (Term, Tagged)):
             return args[0]
+        if name == "len" and args and isinstance(args[0], Term) and args[0].kind in ("at", "border"):
+            return Term("size>0", of=args[0])
         return super().call_builtin(name, args, kwargs, node)
 
     def binop_hook(self, op, l, r, node):
@@ -167,6 +173,10 @@ class MorphInterp(ResultInterp):
     def compare_hook(self, op, l, r, node):
         if isinstance(l, Term) and l.kind == "ndim":
             return Unknown("ndim compare")
+        if isinstance(l, Term) and l.kind == "size>0" and isinstance(r, int) and not isinstance(r, bool) and r <= 0:
+            return isinstance(op, (ast.Gt, ast.GtE, ast.NotEq)) if r == 0 else isinstance(op, (ast.Gt, ast.GtE, ast.NotEq))
+        if isinstance(r, Term) and r.kind == "size>0" and isinstance(l, int) and not isinstance(l, bool) and l == 0:
+            return isinstance(op, (ast.Lt, ast.LtE, ast.NotEq))
         return super().compare_hook(op, l, r, node)
 
 
@@ -332,6 +342,12 @@ class EdtInterp(ResultInterp):
         a = args
         if name == "numpy.zeros":
             return DArr(_dt(kwargs.get("dtype")) or "f64", "ft0")
+        # the array handed in marks the voxels to measure to with zeros: there is at least one (the
+        # border of a non-empty mask), while every other voxel may or may not be one
+        if name in ("INPUT.all", "numpy.all") and (name == "INPUT.all" or (a and isinstance(a[0], Sym) and a[0].name == "INPUT")) and not kwargs:
+            return False
+        if name in ("INPUT.any", "numpy.any") and (name == "INPUT.any" or (a and isinstance(a[0], Sym) and a[0].name == "INPUT")) and not kwargs:
+            return Unknown("input-any")
         if name.endswith("euclidean_feature_transform"):
             if len(a) >= 3 and isinstance(a[2], DArr):
                 a[2].expr = "ft"
@@ -394,16 +410,30 @@ def check_edt(ctx: Ctx):
     prog = ctx.prog
     f = prog.func("metrics.assd:_distance_transform_edt")
     p0 = f.call_params[0].name
-    it = EdtInterp(prog, f, {p0: Sym("INPUT")})
-    out = it.run()
+    its = []
+
+    def make(prefix):
+        its.append(EdtInterp(prog, f, {p0: Sym("INPUT")}, prefix=prefix))
+        return its[-1]
+
+    outs = enumerate_paths(make, max_paths=16)
     construct = f"{f.qual}"
-    if out.kind != "return" or out.decisions or not isinstance(out.value, DArr):
-        ctx.undecided("R07.4", f, out.node, construct, f"distance reconstruction not evaluable: {out.kind} {out.exc} {out.value!r}"[:200])
-        return
+    for out, it in zip(outs, its):
+        other = [d for d in out.decisions if not (isinstance(d[1], Unknown) and d[1].tag == "input-any")]
+        if out.kind == "raise" and not other:
+            ctx.violated("R07.4", f, out.node, construct + ":total", f"the transform raises {out.exc} for an array that has a voxel to measure to (here: every voxel is one)", {"path": [(norm(d[0]), d[2]) for d in out.decisions if isinstance(d[0], ast.AST)]})
+            return
+        if out.kind != "return" or other or not isinstance(out.value, DArr):
+            ctx.undecided("R07.4", f, out.node, construct, f"distance reconstruction not evaluable: {out.kind} {out.exc} {out.value!r}"[:200])
+            return
+    out, it = outs[0], its[0]
+    for o2 in outs[1:]:
+        if o2.value.expr != out.value.expr:
+            out = o2
     v = out.value
     ok = v.expr in ("sqrt(sum[0]((ft-idx)^2))", "sqrt(sum[0]((idx-ft)^2))")
     ctx.decide("R07.4", f, out.node, construct + ":formula", "distance = sqrt(sum over the coordinate axis of (nearest-feature index - own index)^2)", ok, {"got": v.expr})
-    bad = it.root.int_squares
+    bad = [x for it_ in its for x in it_.root.int_squares]
     ctx.decide("R07.4", f, bad[0][0] if bad else out.node, construct + ":float-squares", "index offsets are squared in float64 (int32 squares overflow for offsets >= 46341 voxels)", not bad, {"squared_in": [d for _, d in bad]})
 
 
